@@ -5,6 +5,7 @@ is explored)."""
 from __future__ import annotations
 
 import ast
+import copy
 from fractions import Fraction
 
 import sympy as sp
@@ -100,6 +101,148 @@ class ToSympy:
         if isinstance(node, ast.Subscript):
             return self.sym(unparse(node))
         raise AnalysisError(f'cannot normalise {unparse(node)[:80]}')
+
+
+def unknowns(e: sp.Expr, known) -> list[str]:
+    """What a translated formula contains besides the quantities in `known`: free symbols that stand for a name, an
+    attribute or a subscript the caller has not mapped to a quantity, and applications of functions the translation does not
+    interpret.  A formula with unknowns cannot be compared with a defining formula: a difference of normal forms then says
+    nothing about the quantity that is computed (the unknown may well be one of the known quantities under another name)."""
+    from sympy.core.function import AppliedUndef
+
+    known = set(known)
+    out = sorted(str(s) for s in e.free_symbols if s not in known)
+    return out + sorted({str(f.func) for f in e.atoms(AppliedUndef)})
+
+
+class _MatrixIndex(ast.NodeTransformer):
+    def visit_Subscript(self, node: ast.Subscript):
+        self.generic_visit(node)
+        ix = node.slice
+        if isinstance(ix, (ast.Tuple, ast.Slice, ast.Starred)) or not isinstance(node.ctx, ast.Load):
+            return node
+        v = node.value
+        two = None
+        if isinstance(v, ast.Call) and not v.keywords:
+            if dotted(v.func) in ('np.diag', 'numpy.diag', 'np.diagonal', 'numpy.diagonal') and len(v.args) == 1:
+                two = (v.args[0], ix, ix)
+            elif isinstance(v.func, ast.Attribute) and v.func.attr == 'diagonal' and not v.args:
+                two = (v.func.value, ix, ix)
+        elif isinstance(v, ast.Subscript) and not isinstance(v.slice, (ast.Tuple, ast.Slice, ast.Starred)):
+            two = (v.value, v.slice, ix)
+        if two is None:
+            return node
+        m, a, b = two
+        return ast.copy_location(ast.Subscript(value=m, slice=ast.Tuple(elts=[copy.deepcopy(a), copy.deepcopy(b)], ctx=ast.Load()), ctx=ast.Load()), node)
+
+
+def matrix_index(expr: ast.expr) -> ast.expr:
+    """Copy of expr with the element reads of a two-dimensional array written in one form: np.diag(M)[i] and
+    M.diagonal()[i] become M[i, i]; M[i][j] becomes M[i, j].  Only meaningful where M is a matrix and i, j are scalar
+    indices (the callers apply it to formulas over variance-covariance matrices)."""
+    return ast.fix_missing_locations(_MatrixIndex().visit(copy.deepcopy(expr)))
+
+
+def inline_defs(func_node: ast.AST, expr: ast.expr, depth: int = 6) -> ast.expr:
+    """Copy of expr in which every local of the function that is BOUND exactly once, by a plain `x = <expr>`, is replaced by
+    that expression, recursively.  Like core.inline_locals, but only binding occurrences count as definitions (a name read in
+    the subscript of an assignment target, `t[key] = v`, is not a definition of `key`); parameters, loop targets, with / except
+    / import names, augmented and unpacking assignments, walrus targets, global / nonlocal names are never replaced."""
+    from .core import walk_no_nested
+
+    a = func_node.args
+    never = {x.arg for x in a.posonlyargs + a.args + a.kwonlyargs} | ({a.vararg.arg} if a.vararg else set()) | ({a.kwarg.arg} if a.kwarg else set())
+    defs: dict[str, list] = {}
+    for n in walk_no_nested(func_node):
+        if isinstance(n, ast.Assign) and len(n.targets) == 1 and isinstance(n.targets[0], ast.Name):
+            defs.setdefault(n.targets[0].id, []).append(n.value)
+        elif isinstance(n, ast.AnnAssign) and isinstance(n.target, ast.Name) and n.value is not None:
+            defs.setdefault(n.target.id, []).append(n.value)
+        elif isinstance(n, ast.Name) and isinstance(n.ctx, (ast.Store, ast.Del)):
+            defs.setdefault(n.id, []).append(None)  # any other binding (the two plain forms above are met a second time here)
+        elif isinstance(n, (ast.Global, ast.Nonlocal)):
+            never |= set(n.names)
+        elif isinstance(n, ast.ExceptHandler) and n.name:
+            never.add(n.name)
+        elif isinstance(n, (ast.Import, ast.ImportFrom)):
+            never |= {(al.asname or al.name).split('.')[0] for al in n.names}
+        elif isinstance(n, (ast.FunctionDef, ast.AsyncFunctionDef, ast.ClassDef)) and n is not func_node:
+            never.add(n.name)
+    # a plain definition is recorded twice (its value, then None for its Store name): single = one value and one None
+    single = {k: v[0] if v[0] is not None else v[1] for k, v in defs.items() if len(v) == 2 and (v[0] is None) != (v[1] is None) and k not in never}
+
+    class Sub(ast.NodeTransformer):
+        def __init__(self, d):
+            self.d = d
+
+        def visit_Name(self, node):
+            if isinstance(node.ctx, ast.Load) and node.id in single and self.d > 0:
+                return Sub(self.d - 1).visit(copy.deepcopy(single[node.id]))
+            return node
+
+    return ast.fix_missing_locations(Sub(depth).visit(copy.deepcopy(expr)))
+
+
+def inline_returns(prog, f, expr: ast.expr, depth: int = 3) -> ast.expr:
+    """Copy of expr in which a call of a function of the package whose body is a single `return <expression>` is replaced
+    by that expression with the arguments put in the place of the parameters (positional, keyword and constant defaults
+    alike).  `f` is the function the expression is taken from (calls are resolved from there).  Calls that do not resolve
+    to exactly one such function, methods called on anything but `self`, and callees with * / ** parameters stay as they are."""
+
+    def body_of(g):
+        from .core import strip_docstring
+
+        b = strip_docstring(g.node.body)
+        a = g.node.args
+        if len(b) != 1 or not isinstance(b[0], ast.Return) or b[0].value is None or a.vararg or a.kwarg or g.node.decorator_list:
+            return None
+        return b[0].value
+
+    class Sub(ast.NodeTransformer):
+        def __init__(self, d):
+            self.d = d
+
+        def visit_Call(self, node: ast.Call):
+            self.generic_visit(node)
+            if self.d <= 0:
+                return node
+            try:
+                cands = prog.resolve_call(f, node)
+            except Exception:  # noqa: an unresolved call is simply not expanded
+                return node
+            if len(cands) != 1 or cands[0].node is getattr(f, 'node', None):
+                return node
+            g = cands[0]
+            if g.cls is not None and not (isinstance(node.func, ast.Attribute) and isinstance(node.func.value, ast.Name) and node.func.value.id == 'self'):
+                return node
+            ret = body_of(g)
+            bound = prog.bind_call(f, node) if ret is not None else None
+            if bound is None:
+                return node
+            a = g.node.args
+            pos = a.posonlyargs + a.args
+            for p_, dflt in list(zip(pos[len(pos) - len(a.defaults):], a.defaults)) + [(p_, d_) for p_, d_ in zip(a.kwonlyargs, a.kw_defaults) if d_ is not None]:
+                if p_.arg not in bound and isinstance(dflt, ast.Constant):
+                    bound[p_.arg] = dflt
+            params = [x.arg for x in pos + a.kwonlyargs]
+            if g.cls is not None and 'staticmethod' not in g.decorators():
+                params = params[1:]
+            if any(p_ not in bound for p_ in params):
+                return node
+
+            class Put(ast.NodeTransformer):
+                def visit_Name(self, n):
+                    if isinstance(n.ctx, ast.Load) and n.id in bound:
+                        return copy.deepcopy(bound[n.id])
+                    return n
+
+                def visit_Lambda(self, n):
+                    return n
+
+            out = Put().visit(copy.deepcopy(ret))
+            return ast.copy_location(Sub(self.d - 1).visit(out), node)
+
+    return ast.fix_missing_locations(Sub(depth).visit(copy.deepcopy(expr)))
 
 
 def equal(a: sp.Expr, b: sp.Expr) -> bool:
